@@ -442,6 +442,7 @@ SOURCE_COMMITS = [
     '7b4ba01 fix: regions located from data completed in the same chunk were not followed up',
     '699f41f fix: VHDX pointers behind the stream position made the verdict depend on chunking',
     '8c91506 fix: convert_version_to_int raised TypeError for an invalid tuple version',
+    '3ae0bbb fix: VMDK virtual_size is 0 until the sparse header has been captured',
 ]
 
 if __name__ == '__main__':
